@@ -290,7 +290,7 @@ def host_main(case_path, out_path):
 def _valid(kind, pers, beh, start):
     if kind == 'thread' and beh == 'frozen':
         return False
-    if beh == 'linger' and (kind == 'thread' or pers != 'F'):
+    if beh == 'linger' and (kind == 'thread' or (pers != 'F' and kind != 'process')):
         return False
     if beh == 'slowres' and (kind != 'remote' or pers != 'T'):
         return False
@@ -360,6 +360,11 @@ def gen_cases(tier, rng):
         add(S(kind, 'linger'), ['wait0', 'waitT', 'termT', 'termTF'])
         add(S(kind, 'linger'), ['alive', 'waitT', 'term0F', 'alive'])
         add(S(kind, 'linger'), ['waitT', 'stop', 'termTF', 'alive'])
+    # persistent process worker whose item leaves a thread behind and fails: do_work ends, the child has closed its end of the
+    # arguments pipe (close()/_release_child write to a pipe nobody reads) while the process lives on
+    add(S('process', 'linger', 'T'), ['waitT', 'alive', 'termTF', 'wait0'])
+    add(S('process', 'linger', 'T'), ['wait0', 'termT', 'alive', 'termTF'])
+    add(S('process', 'linger', 'T'), ['term0F', 'waitT', 'termTF', 'alive'])
     # the target ends by itself with an outcome that cannot be rebuilt on the parent side, while wait() is receiving it
     for kind in ('thread', 'process', 'remote'):
         add(S(kind, 'unreb'), ['waitT', 'wait0', 'termT', 'alive'])
